@@ -169,6 +169,9 @@ structure Facts09 where
   /-- the transport ignores an exception that propagates out of the auxiliary methods' processing -/
   auxGuarded : Bool
   emptyTest : EmptyTest
+  /-- the XML protocols replace the characters XML 1.0 cannot carry in a fault's message / actor by U+FFFD
+      (measured with control characters, NUL, U+FFFE/U+FFFF and — outside the model's `Char` — lone surrogates) -/
+  xmlSanitise : Bool
   /-- the built-in classes whose constructor takes the fault code from `self.CODE` (so that a subclass that
       overrides CODE with a more specific sub-code is raised with that code) -/
   ctorUsesCode : List Builtin
@@ -417,6 +420,17 @@ def detail11 (et : EmptyTest) : Option (List (Text × Detail)) → List Xml
   | some [] => []
   | some (kv :: rest) => [.elem (T "detail") [] [] (kvsToXml et (kv :: rest))]
 
+/-- the `Char` production of XML 1.0 (Lean's `Char` is a Unicode scalar value: lone surrogates, which XML cannot
+    carry either, are not representable here; the harness measures and tests them separately) -/
+def isXmlChar (c : Char) : Bool :=
+  let n := c.toNat
+  n == 9 || n == 10 || n == 13 || (0x20 ≤ n && n ≤ 0xD7FF) || (0xE000 ≤ n && n ≤ 0xFFFD) || 0x10000 ≤ n
+
+/-- `_xml_text`: what XML cannot carry becomes U+FFFD -/
+def xmlText (t : Text) : Text := t.map fun c => if isXmlChar c then c else Char.ofNat 0xFFFD
+
+def xmlTextF (F : Facts09) (t : Text) : Text := if F.xmlSanitise then xmlText t else t
+
 /-- the extra children `gen_members_parent` appends for the declared members of the fault class -/
 def membersXml : List (Text × Text) → List Xml
   | [] => []
@@ -426,8 +440,8 @@ def membersXml : List (Text × Text) → List Xml
 def faultToXml11 (F : Facts09) (f : FaultV) : Xml :=
   .elem tFault11 [] []
     ([leafElem (T "faultcode") (F.env11Prefix ++ ':' :: f.code),
-      leafElem (T "faultstring") f.str,
-      leafElem (T "faultactor") f.actor] ++ detail11 F.emptyTest f.detail ++ membersXml f.members)
+      leafElem (T "faultstring") (xmlTextF F f.str),
+      leafElem (T "faultactor") (xmlTextF F f.actor)] ++ detail11 F.emptyTest f.detail ++ membersXml f.members)
 
 def envelope (ns : Text) (body : List Xml) : Xml :=
   .elem (qn ns (T "Envelope")) [] [] [.elem (qn ns (T "Body")) [] [] body]
@@ -504,8 +518,8 @@ def faultToXml12 (F : Facts09) (f : FaultV) : Option Xml :=
     | some v, some det =>
       some (.elem tFault12 [] []
         ([.elem tCode [] [] (leafElem tValue v :: subcodeChain rest),
-          .elem tReason [] [] [.elem tText [(tLang, f.lang)] f.str []],
-          leafElem tRole f.actor] ++ det ++ membersXml f.members))
+          .elem tReason [] [] [.elem tText [(tLang, f.lang)] (xmlTextF F f.str) []],
+          leafElem tRole (xmlTextF F f.actor)] ++ det ++ membersXml f.members))
     | _, _ => none
 
 def valueText (x : Xml) : Text := childText tValue x.kids
